@@ -84,8 +84,13 @@ def gen_project(rng):
                 if t and fname not in fnames:
                     fnames.add(fname)
                     init = None
-                    if rng.random() < 0.25 and t not in PRIMS:
+                    r_init = rng.random()
+                    if r_init < 0.25 and t not in PRIMS:
                         init = ("new", t, [])
+                    elif r_init < 0.45 and t not in PRIMS:
+                        # an initializer that calls a method on an earlier field, or on a name that is no variable of this class
+                        recv = rng.choice([f["name"] for f in fields] + [rng.choice(VARS)])
+                        init = ("call", ("name", recv), rng.choice(METHODS), [])
                     ftype = t + rng.choice(["", "", "[]"]) if init is None else t
                     fields.append({"mods": [rng.choice(["private", "private final", "protected"])], "type": ftype, "name": fname,
                                    "init": init, "decl": t if ftype == t else None})
